@@ -46,6 +46,18 @@ CHECKS = {
     text="For 25k typed expression trees (entered minimally and fully parenthesised) and 270 query forms (A[] E<> A<> E[] -->, A[U]/A[W], sup/inf/bounds, Pr quantitative/qualitative/compare/until with time/step/clock bounds and run counts, E[..], simulate x3, control forms, minE/maxE/minPr/maxPr with features and `under`, load/saveStrategy, MITL) the library's own str() output is re-parsed in the same scope; canonical trees (incl. double bit patterns) and the second print must be identical and str() must not throw. The spec-level check says which side (printer or grammar) is wrong.",
     note="Scope = inputs the library accepts without diagnostics in the scaffold. Binder symbols are compared by name (expression_t::equal is by identity). Known findings: MITL query forms print in an internal notation."),
 }
+CHECKS.update({
+ "C04": dict(
+    category="model_checking", design_ref="DESIGN.md section 5 (C04), 2.4",
+    technique="TLA+ state machine DocGen.tla (an author writing a model element by element; every 'done' state is a model M with its mirror Expected(M) from the statement); TLC enumerates the small universe exhaustively and samples the large one by random walks; every M rendered to XML, parsed, and the canonical document dump compared field by field with Expected(M)",
+    text="TLC generates abstract models (templates with value/reference/bounded parameters, local declarations, named/anonymous locations with invariant/rate/urgent/committed, branchpoints, init, edges incl. self loops, parallel edges and branchpoint edges with every label kind incl. shadowing selects, full/partial/chained/zero-argument instantiations, system lines with ',' and '<') and the mirror document the statement prescribes; libutap's document after parse_XML_buffer / parse_XML_file must equal the mirror: order, nothing added/dropped/duplicated/re-attached, endpoints via ids, argument i bound to parameter i.",
+    note="Trusts TLC, the renderer (lib/docgen.py, lib/xmlgen.py) and the canonical dump (harness/dump.hpp). Labels are compared as printed text (pool texts are in the printer's canonical spelling); an accepted invariant is stored as `1 && (inv)` by the type checker, which is compared as inv."),
+ "C20": dict(
+    category="model_checking", design_ref="DESIGN.md section 5 (C20), 2.7",
+    technique="TLA+ module XmlWriter.tla (EXTENDS DocGen): ExpXml(M) from the statement vs Written(M), a transcription of XMLWriter's procedures; TLC checks Written = ExpXml on the DocGen universe; every model parsed, written by write_XML_file under ASan/UBSan, read back with an independent XML parser (python expat) and compared with ExpXml(M)",
+    text="For every generated accepted model (incl. self loops, parallel edges, edges through branchpoints, XML-special characters in labels, trivially true guards, several templates reusing location names) the written file must be well-formed and hold, per template, one location element per location with an id unique in the template, name, invariant/rate labels, urgent/committed, exactly one init reference, one transition per edge in order with resolving source/target references, the controllable attribute and the five label kinds; writing must not crash (sanitizer build).",
+    note="Trusts TLC, python's xml.etree (expat) as the independent parser, the renderer. Select binder types are compared as text modulo blanks/implicit const; one redundant outer pair of parentheses around an invariant is not a difference. The <system> text is only required not to crash the writer."),
+})
 NOT_APPLICABLE = {}
 PENDING_REASON = "check not built yet (work in progress; see DESIGN.md section 5 for the plan)"
 HOOK_COMMITS = []
